@@ -361,7 +361,64 @@ def rule_f(ctx):
            "len() combines the index bits and (separately) the sequence bits of both positions", [lb.loc()])
 
 
+def _strip0(o):
+    """drop the `.0` projection of a checked arithmetic result"""
+    while isinstance(o, tuple) and o and o[0] == "proj" and o[2] == ("f", "0"):
+        o = o[1]
+    return o
+
+
+def rule_g(ctx):
+    """the successor function of queue positions and the initial stamps"""
+    P = ctx.prog
+    b = ctx.body(Q + "next_queue_pos")
+    if b:
+        rets = K.ret_assigns(b)
+        plus1 = None
+        ok_inc = ok_wrap = ok_cond = False
+        for r in rets:
+            if not r.is_term and r.node["r"]["r"] == "use":
+                o = [_strip0(x) for x in b.origins(r.node["r"]["o"], r)]
+                if len(o) == 1 and o[0][0] == "bin" and o[0][1].startswith("Add") and o[0][2] == ("arg", 2) and o[0][3][0] == "const" and o[0][3][1] == 1:
+                    plus1 = o[0]
+                    # taken when (pos + 1) & {index, flag} < buffer.len()
+                    for c in b.conditions(r):
+                        if c.kind == "cmp" and c.data[0] == "<" and len(c.data[1]) == 1:
+                            a = next(iter(c.data[1]))
+                            if a[0] == "bin" and a[1] == "BitAnd" and _strip0(a[2]) == plus1 and mask_class(a[3]) == frozenset(["low", "flag"]) and \
+                                    any(x[0] == "call" and x[2].endswith("::len") for x in c.data[2]):
+                                ok_cond = True
+                    ok_inc = True
+            elif r.is_term and r.callee and r.callee.endswith("wrapping_add"):
+                a0 = [_strip0(x) for x in b.origins(r.args()[0], r)]
+                a1 = [_strip0(x) for x in b.origins(r.args()[1], r)]
+                seq = len(a0) == 1 and a0[0][0] == "bin" and a0[0][1] == "BitAnd" and a0[0][2] == ("arg", 2) and mask_class(a0[0][3]) == frozenset(["high"])
+                inc = len(a1) == 1 and a1[0][0] == "bin" and a1[0][1].startswith("Add") and mask_class(a1[0][2]) == frozenset(["low", "flag"]) and a1[0][3][0] == "const" and a1[0][3][1] == 1
+                ok_wrap = seq and inc
+        ctx.ob("successor|increment", ok_inc and ok_cond,
+               "next_queue_pos returns pos + 1 exactly while the new index is below the buffer length", rets)
+        ctx.ob("successor|wrap", ok_wrap,
+               "otherwise it returns (sequence bits of pos) + one sequence increment (index wraps to 0, closed flag untouched)", rets)
+    nb = ctx.body(Q + "new")
+    if nb:
+        slots = list(nb.aggregates(adt="channel::queue::Slot"))
+        ok = len(slots) == 1
+        if ok:
+            fo = dict(zip(slots[0].node["r"]["fields"], slots[0].node["r"]["ops"]))
+            so = nb.origins(fo["stamp"], slots[0])
+            ok = False
+            for x in so:
+                if x[0] == "call" and x[2].endswith("Atomic::new"):
+                    ns = Site(nb, x[1], TERM)
+                    io = nb.origins(ns.args()[0], ns)
+                    if io and all(origin_proj_names(y)[0][0] == "call" and origin_proj_names(y)[0][2] == "std::iter::Iterator::next" for y in io):
+                        ok = True
+            ok = ok and nb.in_loop(slots[0])
+        ctx.ob("new|stamps-are-slot-indices", ok, "slot i starts with stamp i (free for the first lap)", slots)
+
+
 RULES = [
+    ("C12.g", "position successor function; initial stamps", rule_g),
     ("C12.f", "len() is independent of the closed flag", rule_f),
     ("C12.e", "a blocked send retries the push until a slot is free; closed channels fail the send", rule_e),
     ("C12.a", "ordering floors and slot hand-over discipline", rule_a),
